@@ -79,8 +79,9 @@ DecodeAll(s) == DecodeFrom(s, 1, <<>>)
 --------------------------------------------------------------------------------
 (* receiver: what the application gets from a sequence of frames.
    out = delivered messages (payload bytes; the library's message object carries no type), pongs = payloads of the pongs
-   the receiver owes (one per ping with a non-empty payload: the library's send() ignores empty payloads, and replies are
-   outside the property), closed/code/reason after a close frame, bad = protocol violation seen (result then open).  *)
+   the receiver owes (RFC 6455 5.5.2 / 5.5.3: one per ping, with the ping's payload - also when that is empty; a receiver
+   that drops the reply to an empty ping is the hazard EmptyPingNoPong), closed/code/reason after a close frame,
+   bad = protocol violation seen (result then open).                                                                  *)
 Rx0 == [open |-> FALSE, part |-> <<>>, out |-> <<>>, pongs |-> <<>>, closed |-> FALSE, code |-> 0, reason |-> <<>>, bad |-> FALSE]
 RxFrame(r, f) ==
     IF r.closed \/ r.bad THEN r
@@ -93,7 +94,7 @@ RxFrame(r, f) ==
          (IF ~r.open THEN [r EXCEPT !.bad = TRUE]
           ELSE IF f.fin = 1 THEN [r EXCEPT !.out = Append(@, r.part \o f.pl), !.open = FALSE, !.part = <<>>]
           ELSE [r EXCEPT !.part = @ \o f.pl])
-    ELSE IF f.op = OpPing THEN (IF f.pl = <<>> THEN r ELSE [r EXCEPT !.pongs = Append(@, f.pl)])
+    ELSE IF f.op = OpPing THEN [r EXCEPT !.pongs = Append(@, f.pl)]
     ELSE IF f.op = OpPong THEN r
     ELSE [r EXCEPT !.closed = TRUE, !.code = IF Len(f.pl) >= 2 THEN f.pl[1] * 256 + f.pl[2] ELSE 1005,
                    !.reason = IF Len(f.pl) >= 2 THEN SubSeq(f.pl, 3, Len(f.pl)) ELSE <<>>]
